@@ -12,7 +12,9 @@ open Sx Pcore.Immut
 
 def typeNames : List String := ["Integer", "String", "Any", "Boolean", "Nope"]
 
-def nameOK (n : String) : Bool := (varName? n).isSome || n == "verif_list" || n == "nofunc"
+def nameOK (n : String) : Bool := (varName? n).isSome || n == "verif_list" || n == "verif_first" || n == "nofunc"
+
+def paramNames : List String := ["Array", "Optional", "Type", "NotUndef", "Tuple"]
 
 partial def rvOf : Sexp → Option RV
   | .list [.atom "i", n] => n.int?.map .int
@@ -27,11 +29,21 @@ partial def rvOf : Sexp → Option RV
       let n' ← (Sexp.atom n).str?
       let as' ← as.mapM rvOf
       pure (.dfr n' as')
-  | .list [.atom "dt", .atom n] => do
+  | .list (.atom "dt" :: .atom n :: ps) => do
       let n' ← (Sexp.atom n).str?
-      pure (.dty n' none)
+      let ps' ← ps.mapM rvOf
+      pure (.dty n' ps' none)
   | _ => none
 
+mutual
+/-- a parameter of a DeferredType that resolves to a TYPE or raises: a DeferredType, `verif_first(<such>, …)`, a variable
+    (the parameters are resolved in the empty scope: UNKNOWN_VARIABLE), the unknown function -/
+partial def typeParam : RV → Bool
+  | .dty n ps m => inDomain (.dty n ps m)
+  | .dfr n as =>
+    if n == "verif_first" then (match as with | a :: rest => typeParam a && rest.all inDomain | [] => false)
+    else ((varName? n).isSome || n == "nofunc") && as.all inDomain
+  | _ => false
 /-- the names this op covers: variables, the function the harness registers, one unknown function; five type names
     (any other Deferred name may be a real function of pcore, e.g. `new`); no hash entry outside a hash -/
 partial def inDomain : RV → Bool
@@ -39,8 +51,10 @@ partial def inDomain : RV → Bool
   | .hsh es => es.all fun e => match e with | .ent k v => inDomain k && inDomain v | _ => false
   | .ent _ _ => false
   | .dfr n as => nameOK n && as.all inDomain
-  | .dty n _ => typeNames.contains n
+  | .dty n [] _ => typeNames.contains n
+  | .dty n ps _ => paramNames.contains n && (n == "Tuple" && ps.length ≤ 3 || ps.length == 1) && ps.all typeParam
   | _ => true
+end
 
 def isScalar : RV → Bool
   | .int _ => true
@@ -51,6 +65,7 @@ def isScalar : RV → Bool
 partial def scalarKeys : RV → Bool
   | .arr xs => xs.all scalarKeys
   | .dfr _ as => as.all scalarKeys
+  | .dty _ ps _ => ps.all scalarKeys
   | .hsh es =>
     let ks := es.map fun e => match e with | .ent k _ => k | x => x
     ks.all isScalar && (es.all fun e => match e with | .ent _ v => scalarKeys v | _ => false) &&
